@@ -11,6 +11,11 @@ Inductive cause :=
 
 Inductive res := ROk (v : value) | RFail (cs : list cause).
 
+(* A BaseException outside Exception is not a failure the engine handles: it is neither retried nor
+   defaulted (C12), and no one-of contains it: it propagates out of run (C05 "a propagated BaseException"). *)
+Definition fatal_cause (c : cause) : bool :=
+  match c with CNode cl _ _ => negb (issub cl EExc) | _ => false end.
+
 (* One execution of a node in the reference semantics. *)
 Record exec_rec := { x_node : nat; x_kw : kwargs; x_attempts : nat; x_default : bool; x_result : res }.
 
@@ -185,7 +190,7 @@ Section Eval.
                         let '(st1, r) := resolved c st in
                         match r with
                         | ROk v => (st1, ROk v)
-                        | RFail _ => first rest st1
+                        | RFail fc => if existsb fatal_cause fc then (st1, RFail fc) else first rest st1
                         end
                       end in
                   first cs st
